@@ -135,8 +135,9 @@ MCInner == {tla_val(set(c['inner']))}
     cfg.append('  Mut = "%s"' % c.get("mut", "none"))
     cfg.append("  Prefix = %s" % tla_val(bool(c.get("prefix", False))))
     cfg += ["SPECIFICATION Spec", "VIEW view", "CHECK_DEADLOCK FALSE", "INVARIANT NoViolation"]
-    if "C07" in check:
-        cfg.append("INVARIANT NoStuck")
+    # no dead ends: a state without successors that is not the quiescent end would be a behaviour that is
+    # never printed (and, for C07, a call that never returns in the design)
+    cfg.append("INVARIANT NoStuck")
     if emit == "terminal":
         cfg.append("INVARIANT Emit")
     if emit == "edge":
@@ -204,6 +205,7 @@ def run_tlc(name, inst, fixes, check, emit, workers=8, timeout=600, simulate=Non
             if "is violated" in line and "Invariant" in line:
                 res["violated"] = True
                 res["violated_inv"] = line.strip()
+                res["stuck"] = "NoStuck" in line
                 in_cex = True
             if in_cex:
                 cex_lines.append(line)
@@ -403,7 +405,10 @@ def replay(behaviours, c, tag, seed):
         stats["restarts"] += 1
         part += 1
         if stats["restarts"] > 50:
-            raise ToolError("harness keeps hanging")
+            # every run hangs: what has been recorded (the `hang` events are C07 violations) is validated,
+            # the rest is not replayed
+            stats["gave_up"] = len(todo)
+            break
     return trace, stats
 
 
